@@ -115,3 +115,31 @@ def utf8_table():
     yield ('reject-is-absorbing', absorbing, None, 'enumeration')
     states_ok = sorted(m) == list(range(9))
     yield ('reachable-states-are-0..8', states_ok, None if states_ok else dict(states=sorted(m)), 'enumeration')
+
+
+@ground('status.Status.invalid_codes', serves=['C04', 'C08'])
+def close_codes():
+    """RFC 6455 7.4.1 / 7.4.2 sandwich over all 65 536 16-bit codes: codes that must never appear
+    on the wire are in the set, codes that are defined for use are not (1012-1014 and >= 5000 are
+    left open, so the check demands no more than the property)"""
+    mod = importlib.import_module('lomond.status')
+    inv = mod.Status.invalid_codes
+    must_reject = lambda c: c <= 999 or c in (1004, 1005, 1006, 1015) or 1016 <= c <= 2999
+    must_accept = lambda c: 1000 <= c <= 1003 or 1007 <= c <= 1011 or 3000 <= c <= 4999
+    bad1 = next((c for c in range(65536) if must_reject(c) and c not in inv), None)
+    bad2 = next((c for c in range(65536) if must_accept(c) and c in inv), None)
+    yield ('reserved-codes-are-rejected(65536 codes)', bad1 is None, None if bad1 is None else dict(code=bad1), 'enumeration')
+    yield ('defined-codes-are-accepted(65536 codes)', bad2 is None, None if bad2 is None else dict(code=bad2), 'enumeration')
+    yield ('set-holds-only-ints', all(isinstance(c, int) for c in inv), None, 'enumeration')
+
+
+@ground('opcode.reserved_opcodes', serves=['C04'])
+def opcodes():
+    mod = importlib.import_module('lomond.opcode')
+    ok = set(mod.reserved_opcodes) == {3, 4, 5, 6, 7, 11, 12, 13, 14, 15}
+    yield ('reserved-opcodes-are-3-7-and-11-15', ok, None if ok else dict(found=sorted(mod.reserved_opcodes)), 'enumeration')
+    O = mod.Opcode
+    ok2 = (O.CONTINUATION, O.TEXT, O.BINARY, O.CLOSE, O.PING, O.PONG) == (0, 1, 2, 8, 9, 10)
+    yield ('opcode-constants', ok2, None, 'enumeration')
+    bad = next((k for k in range(16) if mod.is_reserved(k) != (k in {3, 4, 5, 6, 7, 11, 12, 13, 14, 15})), None)
+    yield ('is_reserved-agrees(16 opcodes)', bad is None, None if bad is None else dict(opcode=bad), 'enumeration')
